@@ -478,6 +478,11 @@ class Interp:
                 # a real attribute of the python type that the engine has no model for: undecided, never an AttributeError
                 raise Unsupported('%s.%s is not modelled' % (real.__name__, name))
             self.ctx.raise_exc('AttributeError', '%s has no attribute %s' % (ops.pytype(v), name))
+        if isinstance(v, BuiltinType):
+            import builtins as _bi
+            real = getattr(_bi, v.name, None)
+            if real is not None and not hasattr(real, name):
+                self.ctx.raise_exc('AttributeError', "type object '%s' has no attribute '%s'" % (v.name, name))
         raise Unsupported('attribute %s of %r' % (name, v))
 
     def super_attr(self, sp, name):
